@@ -50,7 +50,7 @@ CLAIMS = {
        "(prefix, depth, parent, mask/value or all 16 link slots, old subtree linked) on every path before the store that "
        "publishes it and no write to a fresh node can follow any publishing store; a value is constructed before its mask "
        "bit is set with old|bit; erase clears one bit with release and frees nothing; find() returns a value only under "
-       "prefix match and acquire-loaded bit. Does not decide the happens-before argument over all interleavings.",
+       "prefix match and acquire-loaded bit. online()/offline() sample the period counter only inside the critical section that changes the agent count, and adjust the agent count before any store that re-arms the ack count from it. Does not decide the happens-before argument over all interleavings.",
   note="Trusted: clang AST/CFG; freshness = local initialised from frg::construct<> in the same activation, alias-resolved through casts.",
   design_ref="DESIGN.md §3 C10, §2 A1/A2"),
  "C09": dict(
@@ -59,7 +59,7 @@ CLAIMS = {
        "(branch-refined intervals); every subscript of a node's links/entries in find/find_or_insert/erase is idx_of(key, "
        "that node's own depth) and mask bits use the same index; the three descents agree on the prefix and leaf tests; "
        "entry storage is never freed/copied outside the destructor and values are constructed only into fresh leaves or "
-       "under a clear mask bit; 'not inserted' is reported only on the bit-set path. Does not decide exactness of the map "
+       "under a clear mask bit; 'not inserted' is reported only on the bit-set path. A value loaded through the cursor node (mask, index, child) is never used after the cursor moved without a reload (K.stale-derived). Does not decide exactness of the map "
        "or iteration order over runtime key sets.",
   note="Trusted: clang AST/CFG; depth domain [0, ll] from the class's own constant.",
   design_ref="DESIGN.md §3 C09, §2 B3/E"),
@@ -70,7 +70,7 @@ CLAIMS = {
        "relocated by growth equals the range destroyed equals [0,size); rvalue-forwarded arguments are not consumed in a "
        "loop; small_vector's inline/heap choice is one predicate of _capacity used consistently; every path of the "
        "intrusive list's push/insert/erase/splice repairs both link directions, updates the moved list end and the "
-       "in_list flag. Does not decide equality with a reference sequence after arbitrary histories.",
+       "in_list flag. A local pointing into small_vector's storage is not dereferenced after a call that may replace the storage (K.stale-buffer). Does not decide equality with a reference sequence after arbitrary histories.",
   note="Trusted: clang AST/CFG of tu/sequences.cpp (Elem/Alloc witnesses). Path-sensitive only in the abstract domains named.",
   design_ref="DESIGN.md §3 C13, §2 P/S/O5/R/H"),
  "C14": dict(
@@ -79,7 +79,7 @@ CLAIMS = {
        "after a call that may change the capacity unless recomputed; an index reduced modulo c subscripts only the table "
        "with c buckets; every index is hasher(key concerned) % capacity; on every path constructs equal ++_size and "
        "destructs equal --_size and rehash() does none of them; insert() grows before computing its bucket; no node is "
-       "touched after its release; empty() polarity. Does not decide agreement with a reference map over histories.",
+       "touched after its release; empty() polarity. remove() advances its predecessor pointer on every path around the chain walk and has both unlink forms (H.chain-unlink). Does not decide agreement with a reference map over histories.",
   note="Trusted: clang AST/CFG of tu/hash_map.cpp; callee summaries 'may write _capacity' computed over the class's call graph.",
   design_ref="DESIGN.md §3 C14, §2 K/E"),
  "C16": dict(
@@ -101,7 +101,7 @@ CLAIMS = {
        "<<= and >>= every access whose position depends on the shift amount is dominated by a bound on it; all shift counts "
        "lie in [0,width); no function calls itself on every path; the bit reference reads through operator bool and writes "
        "its own index; MT19937/PCG constants present and the bounded draw is r % bound under r >= threshold; insertion_sort "
-       "permutes by comp-guarded swaps only. Does not decide agreement with std::bitset, the streams or sortedness.",
+       "permutes by comp-guarded swaps only. No unsigned subtraction in the shift operators can go below zero on the guarded range of the shift amount (B8; quick tier N in {64,70}). Does not decide agreement with std::bitset, the streams or sortedness.",
   note="Trusted: clang AST/CFG of tu/bits.cpp per N; set(pos) exempt by documented precondition pos < N.",
   design_ref="DESIGN.md §3 C18, §2 B1/B3/B4/R/T"),
  "C15": dict(
@@ -112,7 +112,7 @@ CLAIMS = {
        "the new length whenever a buffer is installed; every constructor leaves a non-null buffer; view search subscripts "
        "are dominated by index<length; sub_string's assertion cannot wrap; starts_with/ends_with slice only when the "
        "argument fits; compare() is length-first; swap complete; empty() polarity. The null buffer of default-constructed "
-       "and detached strings is a recorded known finding. Does not decide equality with a reference string.",
+       "and detached strings is a recorded known finding. compare() measures the other operand by a complete length; no memcpy can run after a mutator released the old buffer (sources may alias it). Does not decide equality with a reference string.",
   note="Trusted: clang AST/CFG of tu/string.cpp; lengths are symbols, sufficient (not complete) polynomial non-negativity test; "
        "caller-supplied (pointer,length) pairs are trusted by contract.",
   design_ref="DESIGN.md §3 C15, §2 B2/B5"),
@@ -123,7 +123,7 @@ CLAIMS = {
        "subscript of a format view in the {}-parser is dominated by index<size(); parse_arguments touches the command line "
        "only through find_first/sub_string/size/comparison; sub_string's assertion cannot wrap and view searches are "
        "bounded; digit accumulators (to_number, printf width/precision, {} width) are unsigned, overflow-checked or bounded; "
-       "no parser recurses unconditionally; loops advance. Does not decide absence of all undefined behaviour nor the bounds "
+       "no parser recurses unconditionally; loops advance. pop_arg uses arg_pos as a cache index only under arg_pos != -1 and never lowers the count of consumed arguments; digit-accumulator guards must keep acc*10+9 inside the type. Does not decide absence of all undefined behaviour nor the bounds "
        "of the caller's positional-argument array.",
   note="Trusted: clang AST/CFG of tu/format.cpp and tu/string.cpp; assertion failure arms are non-returning (panic hook / trap).",
   design_ref="DESIGN.md §3 C20, §2 B5/B6/B7/R"),
@@ -133,7 +133,7 @@ CLAIMS = {
        "an integer of the modifier's width with the conversion's signedness, and the conversions agree; every conversion arm "
        "pops exactly one argument per path; every printf agent result is tested and propagated before the cursor moves; the "
        "{}-spec parser accepts exactly b c o d i x X and the three echo sites slice from the recorded spec start; logger "
-       "buffer writes are dominated by _off<Limit and a flush terminates, emits, resets. The heart of C19 — byte-for-byte "
+       "buffer writes are dominated by _off<Limit and a flush terminates, emits, resets. The {}-width guard keeps acc*10+9 within int so an out-of-range width makes the spec malformed (B6.fmt-width-range). The heart of C19 — byte-for-byte "
        "agreement with ISO C for every flag/width/precision/value — is NOT decidable by this family and is not claimed.",
   note="Trusted: clang AST/CFG of tu/format.cpp (LP64 widths). Observation recorded in DESIGN.md §4: print_digits ignores the sign in the width computation.",
   design_ref="DESIGN.md §3 C19, §2 T"),
@@ -168,7 +168,7 @@ CLAIMS = {
        "copies from the old block before freeing it, with a length whose only definitions are the old usable size; in-place "
        "helpers succeed only under new_size <= usable size and only then is the old pointer returned; _construct_slab is "
        "called only when the bucket has no head slab; free decides 'was full' before pushing and re-inserts + repairs the head; "
-       "a slab that fills up leaves the partial tree. Does not decide byte equality of contents nor the footprint bound itself.",
+       "a slab that fills up leaves the partial tree. The two head-slab repair sites (allocate, free) use one condition that is true when the bucket has no head. Does not decide byte equality of contents nor the footprint bound itself.",
   note="Trusted: clang AST/CFG of tu/slab.cpp (four policy instantiations).",
   design_ref="DESIGN.md §3 C02, §2 N/E"),
  "C03": dict(
@@ -212,7 +212,7 @@ CLAIMS = {
   text="Decides structural clauses of C08: _merge's arms are mirror images and compare(a,b) true makes b the winner; pop clears "
        "the old root's child link; remove clears all three links of the removed element on every non-root path; every child/"
        "sibling link write is paired with the backlink of the linked element unless it is null; _collapse detaches both pair "
-       "members before merging; empty()/top()/push-on-empty have the right shape; _collapse's loops advance. Does not decide "
+       "members before merging; empty()/top()/push-on-empty have the right shape; _collapse's loops advance. No hook link is read right after the same link of the same element was cleared (H.read-after-clear). Does not decide "
        "that top() is a maximum after any history (global heap-order invariant).",
   note="Trusted: clang AST/CFG of tu/trees.cpp.",
   design_ref="DESIGN.md §3 C08, §2 M/H/P/R"),
